@@ -1,0 +1,47 @@
+//go:build verif
+
+package hsms
+
+import (
+	"context"
+	"sync/atomic"
+)
+
+// This file exists only under the `verif` build tag. It exports a seam for the external
+// verification harness (/verif, property C20): it adds code only and changes no production
+// behaviour.
+
+// verifStartGate decorates the connection's transport: every method delegates to the real
+// transport; Start additionally calls after(n, err) once the real Start has returned (n = 1 for the
+// first Start of the connection's life), BEFORE returning to its caller — Open or the reconnect
+// loop — so the harness can hold a reconnect loop "inside tr.Start" after the generation it
+// published has come up.
+type verifStartGate struct {
+	transport
+
+	n     atomic.Int64
+	after func(n int, err error)
+}
+
+func (g *verifStartGate) Start(ctx context.Context, rt TransportRuntime) error {
+	err := g.transport.Start(ctx, rt)
+	n := int(g.n.Add(1))
+	if g.after != nil {
+		g.after(n, err)
+	}
+
+	return err
+}
+
+// VerifGateTransportStart wraps c's transport so that after(n, err) runs at the end of every
+// tr.Start. It must be called before Open. It reports false when c is not the engine's connection.
+func VerifGateTransportStart(c Connection, after func(n int, err error)) bool {
+	cc, ok := c.(*connection)
+	if !ok || cc.tr == nil {
+		return false
+	}
+
+	cc.tr = &verifStartGate{transport: cc.tr, after: after}
+
+	return true
+}
